@@ -1,6 +1,6 @@
 """Harness table: which Kani harness serves which property, in which tier, what it encodes."""
 
-STEP_STUB = ["crate::walk::glob::FilterAny::residue"]
+STEP_STUB = ["crate::walk::glob::FilterAny::residue", "regex::Regex::is_match"]
 WD_STUBS = ["<walkdir::IntoIter as std::iter::Iterator>::next", "walkdir::IntoIter::skip_current_dir"]
 STEP_FUNCS = ["walk::FilterEntry::feed", "walk::Not::feed", "filter::Separation::transpose_filtrate",
               "filter::Separation::filter_tree_by_substituent", "filter::Separation::filter_map_tree",
@@ -78,6 +78,10 @@ HARNESSES = [
     {"name": "walk::glob::verif_kani::negation_residue_step", "props": ["C03"], "tier": "quick",
      "functions": ["walk::glob::FilterAny::residue", "walk::glob::FilterAnyProgram::residue"],
      "bounds": "all 4 program shapes x all regex verdicts; one concrete root-relative path; unwind 6",
+     "stubs": ["regex::Regex::is_match"], "replay": "negation_walks"},
+    {"name": "walk::glob::verif_kani::negation_residue_non_utf8_step", "props": ["C03"], "tier": "quick",
+     "functions": ["walk::glob::FilterAny::residue", "CandidatePath::from(&Path) (lossy conversion)"],
+     "bounds": "one concrete root-relative path with an invalid UTF-8 byte; both partitions present; unwind 8",
      "stubs": ["regex::Regex::is_match"], "replay": "negation_walks"},
     # --- escaping kernel ---
     {"name": "verif_kani::meta_character_set", "props": ["C18"], "tier": "quick",
